@@ -56,11 +56,19 @@ __CPROVER_ensures(__CPROVER_return_value.src_id == src_igrid->id && (radius > nv
 
 /* do_optimize(spaces, callback, logger, steps) of the local-search tuner (also the contract optimize() relies on for the
  * virtual call; the surrogate tuner's do_optimize is not decided) */
+double nv_scratch_f64; int64_t nv_scratch_i64; struct nv_spaces nv_scratch_space;
 #define NV_CONTRACT_tuner_do_optimize \
 __CPROVER_requires(__CPROVER_is_fresh(self, sizeof(*self)) && __CPROVER_is_fresh(spaces, sizeof(*spaces)) && __CPROVER_is_fresh(callback, sizeof(*callback)) \
   && __CPROVER_is_fresh(logger, sizeof(*logger)) && __CPROVER_is_fresh(steps, sizeof(*steps))) \
 __CPROVER_requires(NV_PARAMS_OK && NV_OPT_INV(steps) && steps->n <= NV_BUDGET2 && !nv_thrown) \
 __CPROVER_assigns(*steps, nv_cb_calls, nv_cb_points, nv_cb_evalG, nv_cb_vG, nv_cb_bad, nv_thrown, nv_hint_id, nv_hint_on) \
+__CPROVER_ensures(nv_cb_evalG <= 1) \
+__CPROVER_ensures(!nv_thrown ==> (NV_OPT_INV(steps) && steps->n <= NV_BUDGET2 && steps->n >= __CPROVER_old(steps->n)))
+#define NV_CONTRACT_tuner_do_optimize_sur \
+__CPROVER_requires(__CPROVER_is_fresh(self, sizeof(*self)) && __CPROVER_is_fresh(spaces, sizeof(*spaces)) && __CPROVER_is_fresh(callback, sizeof(*callback)) \
+  && __CPROVER_is_fresh(logger, sizeof(*logger)) && __CPROVER_is_fresh(steps, sizeof(*steps))) \
+__CPROVER_requires(NV_PARAMS_OK && NV_OPT_INV(steps) && steps->n <= NV_BUDGET2 && !nv_thrown) \
+__CPROVER_assigns(*steps, nv_cb_calls, nv_cb_points, nv_cb_evalG, nv_cb_vG, nv_cb_bad, nv_thrown, nv_hint_id, nv_hint_on, nv_scratch_f64, nv_scratch_i64) \
 __CPROVER_ensures(nv_cb_evalG <= 1) \
 __CPROVER_ensures(!nv_thrown ==> (NV_OPT_INV(steps) && steps->n <= NV_BUDGET2 && steps->n >= __CPROVER_old(steps->n)))
 #define NV_LOOP_tuner_do_optimize_1 \
@@ -86,3 +94,25 @@ __CPROVER_ensures(!nv_thrown ==> (nv_cb_points <= NV_BUDGET2 && NV_RET.n >= 1))
 __CPROVER_assigns(radius, steps, nv_cb_calls, nv_cb_points, nv_cb_evalG, nv_cb_vG, nv_cb_bad, nv_thrown, nv_hint_id, nv_hint_on) \
 __CPROVER_loop_invariant(!nv_thrown && NV_OPT_INV(&steps) && steps.n <= NV_BUDGET1 && steps.n >= 1 && 2 <= radius && radius <= 2 * NV_MAX(nv_extent, 1)) \
 __CPROVER_decreases((int64_t)nv_max_evals - steps.n)
+
+/* ---- surrogate_tuner_t::do_optimize: same evaluation protocol; the surrogate numerics (quadratic fit, L-BFGS) are opaque:
+ * whatever they return, the next source point is some index vector, searched around with radius 1 */
+struct nv_opaque { int64_t n; };
+static struct nv_opaque nv_opaque_any(void) { struct nv_opaque o; o.n = nv_nondet_int64_t(); return o; }
+static struct nv_igrid nv_igrid_any(void) { struct nv_igrid g; g.id = nv_nondet_int64_t(); return g; }
+static double* nv_scratch_double(int64_t i) { return &nv_scratch_f64; }
+static int64_t* nv_scratch_long(void) { return &nv_scratch_i64; }
+static struct nv_steps_iter nv_steps_end(struct nv_steps* s) { struct nv_steps_iter it; it.s = s; it.pos = s->n; return it; }
+#define NV_LOOP_tuner_do_optimize_sur_1 \
+__CPROVER_assigns(*steps, nv_cb_calls, nv_cb_points, nv_cb_evalG, nv_cb_vG, nv_cb_bad, nv_thrown, nv_hint_id, nv_hint_on, nv_scratch_f64, nv_scratch_i64) \
+__CPROVER_loop_invariant(!nv_thrown && NV_OPT_INV(steps) && steps->n <= NV_BUDGET2 && steps->n >= __CPROVER_loop_entry(steps->n)) \
+__CPROVER_decreases((int64_t)nv_max_evals - steps->n)
+#define NV_LOOP_tuner_do_optimize_sur_2 \
+__CPROVER_assigns(__begin2, k, steps->front, steps->has_front, nv_scratch_f64) \
+__CPROVER_loop_invariant(__begin2.s == steps && __end2.s == steps && 0 <= __begin2.pos && __begin2.pos <= steps->n && __end2.pos == steps->n \
+  && (!steps->has_front || steps->front.m_igrid.id != nv_G || steps->cntG > 0) && 0 <= k && k == __begin2.pos) \
+__CPROVER_decreases(steps->n - __begin2.pos)
+#define NV_LOOP_tuner_do_optimize_sur_3 \
+__CPROVER_assigns(iparam, nv_scratch_i64) \
+__CPROVER_loop_invariant(0 <= iparam) \
+__CPROVER_decreases(min_state_opt_x->n - iparam)
